@@ -1155,4 +1155,20 @@ tp_run_close(tp_pair *p, int who, long max_steps)
 	return tp_ep_closed(&p->c) && tp_ep_closed(&p->s);
 }
 
+
+/* pump and read (checking the stream oracle) until nothing moves any more */
+static void
+tp_settle(tp_pair *p, long max_steps)
+{
+	long n = 0;
+	for (;;) {
+		size_t l;
+		int moved = 0;
+		while (n ++ < max_steps && tp_pump_step(p)) moved = 1;
+		while (br_ssl_engine_recvapp_buf(p->c.eng, &l)) { tp_act_read(&p->c, l); moved = 1; }
+		while (br_ssl_engine_recvapp_buf(p->s.eng, &l)) { tp_act_read(&p->s, l); moved = 1; }
+		if (!moved || n >= max_steps) break;
+	}
+}
+
 #endif
